@@ -3,7 +3,7 @@ import PyresampleModel.Model.C06
 import PyresampleModel.Proofs.Num
 
 /-
-  Tie theorems, C06: `_calc_abc` (the coefficients of the quadratic both solver branches use) and `_resample` (the
+  Tie theorems, C06: the whole analytic solver. `_calc_abc` (the coefficients of the quadratic both solver branches use) and `_resample` (the
   four bilinear weights applied to the corner values), as translated from /repo's current source with the numpy
   expressions read elementwise (`pt[:, 0]` = x of the point, `pt[:, 1]` = y), equal the model's `calcABC` / `resample`.
 -/
@@ -17,5 +17,112 @@ theorem tie_calc_abc (p1 p2 p3 p4 : C06.Pt) (oy ox : Rat) :
 theorem tie_bil_resample (v1 v2 v3 v4 s t : Rat) :
     Gen.bil_resample (v1, v2, v3, v4) (s, t) = C06.resample v1 v2 v3 v4 s t := by
   simp [Gen.bil_resample, C06.resample]
+
+/-! ### the NaN-aware part of the solver (NaN and ±inf = `none`, as in the model)
+
+`find_indices_outside_min_and_max`, `_solve_another_fractional_distance`, `_get_fractional_distances_parallellogram`
+(including the sign of `x_31 · t` that finding F10 is about: the tie holds for the code AS IT IS) and `_solve_quadratic`
+with `np.sqrt` as a parameter, as translated from /repo's current source, equal the model's `in01`/`keep01`,
+`solveAnother`, `parallelogram`, `solveQuadratic`. -/
+
+theorem find_outside_some (v : Rat) : Gen.find_outside (some v) 0 1 = !C06.in01 v := by
+  simp only [Gen.find_outside, Gen.nLt, Gen.nGt, C06.in01]
+  by_cases h0 : v < 0 <;> by_cases h1 : v > 1 <;> simp [h0, h1, not_le.mpr, not_lt.mp]
+
+theorem find_outside_none (lo hi : Rat) : Gen.find_outside none lo hi = false := by
+  simp [Gen.find_outside, Gen.nLt, Gen.nGt]
+
+theorem keep_eq (x : Option Rat) :
+    (if Gen.find_outside x 0 1 then (none : Option Rat) else x) = C06.keep01 x := by
+  cases x with
+  | none => simp [find_outside_none, C06.keep01]
+  | some v => simp only [find_outside_some, C06.keep01]; cases C06.in01 v <;> simp
+
+theorem pyAbsQ_eq06 (q : Rat) : Gen.pyAbsQ q = C06.absQ q := by
+  simp only [Gen.pyAbsQ, C06.absQ]
+  by_cases h : q < 0
+  · simp [h, not_le.mpr h]
+  · simp [h, not_lt.mp h]
+
+theorem pyMaxQ_eq06 (a b : Rat) : Gen.pyMaxQ a b = C06.maxQ a b := by
+  simp only [Gen.pyMaxQ, C06.maxQ]
+  by_cases h : a ≤ b
+  · by_cases h' : a ≥ b
+    · have : a = b := le_antisymm h h'
+      simp [this]
+    · simp [h, h']
+  · have : a ≥ b := le_of_lt (not_le.mp h)
+    simp [h, this]
+
+theorem tie_solve_another (f : Option Rat) (y1 y2 y3 y4 oy : Rat) :
+    Gen.solve_another f (y1, y2, y3, y4) oy = C06.solveAnother f y1 y2 y3 y4 oy := by
+  cases f with
+  | none =>
+    simp [Gen.solve_another, C06.solveAnother, Gen.nSub, Gen.nAdd, Gen.nMul, Gen.nLift2, Gen.nAbs, Gen.nLe, Gen.nDiv,
+      find_outside_none]
+  | some f =>
+    simp only [Gen.solve_another, C06.solveAnother, Gen.nSub, Gen.nAdd, Gen.nMul, Gen.nLift2, Gen.nAbs, Gen.nLe,
+      Option.map, pyAbsQ_eq06, pyMaxQ_eq06, C06.tiny6]
+    by_cases h : C06.absQ (y3 + (y4 - y3) * f - y1 - (y2 - y1) * f) ≤
+        mkRat 4722366482869645 4722366482869645213696 * C06.maxQ (C06.absQ (y2 - y1)) (C06.absQ (y4 - y3))
+    · simp [h, find_outside_none]
+    · simp only [h, decide_false, Bool.false_eq_true, if_false]
+      have := keep_eq (Gen.nDiv (some (oy - y1 - (y2 - y1) * f)) (some (y3 + (y4 - y3) * f - y1 - (y2 - y1) * f)))
+      simp only [Int.cast_zero, Int.cast_one] at *
+      rw [this]
+      simp [Gen.nDiv, C06.divQ]
+
+theorem tie_bil_parallelogram (p1 p2 p3 : C06.Pt) (oy ox : Rat) :
+    (let r := Gen.bil_parallelogram ((p1.x, p1.y), (p2.x, p2.y), (p3.x, p3.y)) oy ox
+     C06.both r.1 r.2) = C06.parallelogram p1 p2 p3 ox oy := by
+  simp only [Gen.bil_parallelogram, C06.parallelogram, keep_eq]
+  have d1 : Gen.nDiv (some ((p2.x - p1.x) * (oy - p1.y) - (p2.y - p1.y) * (ox - p1.x)))
+      (some ((p2.x - p1.x) * (p3.y - p1.y) - (p2.y - p1.y) * (p3.x - p1.x))) =
+      C06.divQ ((p2.x - p1.x) * (oy - p1.y) - (p2.y - p1.y) * (ox - p1.x))
+        ((p2.x - p1.x) * (p3.y - p1.y) - (p2.y - p1.y) * (p3.x - p1.x)) := by
+    simp [Gen.nDiv, C06.divQ]
+  rw [d1]
+  cases ht : C06.keep01 (C06.divQ ((p2.x - p1.x) * (oy - p1.y) - (p2.y - p1.y) * (ox - p1.x))
+        ((p2.x - p1.x) * (p3.y - p1.y) - (p2.y - p1.y) * (p3.x - p1.x))) with
+  | none => simp [Gen.nAdd, Gen.nMul, Gen.nLift2, Gen.nDiv, C06.keep01, C06.both]
+  | some t => simp [Gen.nAdd, Gen.nMul, Gen.nLift2, Gen.nDiv, C06.divQ]
+
+theorem keep01_none : C06.keep01 none = none := rfl
+
+theorem chain_eq (x1 x2 x3 : Option Rat) :
+    (if Gen.find_outside (if (Gen.find_outside (if (Gen.find_outside x1 0 1 || x1.isNone) then x2 else x1) 0 1 ||
+          (if (Gen.find_outside x1 0 1 || x1.isNone) then x2 else x1).isNone) then x3
+        else (if (Gen.find_outside x1 0 1 || x1.isNone) then x2 else x1)) 0 1 then (none : Option Rat)
+     else (if (Gen.find_outside (if (Gen.find_outside x1 0 1 || x1.isNone) then x2 else x1) 0 1 ||
+          (if (Gen.find_outside x1 0 1 || x1.isNone) then x2 else x1).isNone) then x3
+        else (if (Gen.find_outside x1 0 1 || x1.isNone) then x2 else x1))) =
+      (match C06.keep01 x1 with
+       | some v => some v
+       | none => match C06.keep01 x2 with
+         | some v => some v
+         | none => C06.keep01 x3) := by
+  rcases x1 with _ | a <;> rcases x2 with _ | b <;> rcases x3 with _ | c <;>
+    simp only [find_outside_none, find_outside_some, C06.keep01, Option.isNone_none, Option.isNone_some, Bool.or_true,
+      Bool.or_false, if_true, Bool.false_eq_true, if_false] <;>
+    (repeat' split) <;> simp_all [find_outside_some, find_outside_none]
+
+theorem tie_solve_quadratic (sq : Rat → Option Rat) (a b c : Rat) :
+    Gen.solve_quadratic sq a b c 0 1 = (C06.solveQuadratic (a, b, c) (sq (b * b - 4 * a * c))).map (·.1) := by
+  simp only [Gen.solve_quadratic, chain_eq]
+  have half : mkRat 1 2 = (1 / 2 : Rat) := by decide +kernel
+  have d3 : Gen.nDiv (some (-c)) (some b) = C06.divQ (-c) b := by simp [Gen.nDiv, C06.divQ]
+  have hd : (b * b - ((4 : Int) : Rat) * a * c) = b * b - 4 * a * c := by push_cast; ring
+  simp only [Int.cast_zero, hd, d3, half, Gen.nBind, Option.bind_some]
+  cases hr : sq (b * b - 4 * a * c) with
+  | none =>
+    by_cases hb : b < 0 <;>
+      simp [hb, C06.solveQuadratic, keep01_none, Gen.nMul, Gen.nAdd, Gen.nLift2, Gen.nDiv] <;>
+      (cases C06.keep01 (C06.divQ (-c) b) <;> simp)
+  | some r =>
+    have q1 : ∀ q x : Rat, Gen.nDiv (some q) (some x) = C06.divQ q x := by intro q x; simp [Gen.nDiv, C06.divQ]
+    by_cases hb : b < 0 <;>
+      simp only [hb, C06.solveQuadratic, C06.stableRoots, Gen.nMul, Gen.nAdd, Gen.nLift2, q1, decide_true, decide_false,
+        if_true, if_false, Bool.false_eq_true] <;>
+      (repeat' split) <;> simp_all
 
 end PyresampleModel.Tie
